@@ -484,7 +484,7 @@ func runSweep(p *vc.Program, opt vc.Options) {
 				continue
 			}
 			k := strings.TrimPrefix(r.Kind, "safety.")
-			if k == "nil" || k == "overflow" || k == "truncation" || k == "typed-nil" || k == "nil-map" || k == "ownership" {
+			if (k == "nil" && os.Getenv("GOVC_SWEEP_NIL") == "") || k == "overflow" || k == "truncation" || k == "typed-nil" || k == "nil-map" || k == "ownership" {
 				continue
 			}
 			total++
